@@ -29,7 +29,7 @@ Definition ser_world (w : world FN) : tree :=
    The complete final state (all pending parts) is serialised once at the end. *)
 Definition assigns_params (o : op FN) : bool :=
   match o with
-  | OpUpdate _ _ | OpUpdateSome _ _ _ | OpApply _ _ | OpSetParam _ _ _ => true
+  | OpUpdate _ _ | OpUpdateSome _ _ _ | OpApply _ _ | OpSetParam _ _ _ | OpTrainerUpdate _ _ => true
   | _ => false
   end.
 Definition ser_params (w : world FN) : tree :=
